@@ -102,6 +102,10 @@ struct Sys {
     touched: BTreeSet<u32>,
     batches: Vec<(u32, u32)>,
     next: u32, // one past the highest id known to be issued by sequential / batch minting
+    /// Ids are logged relative to `base` (0 normally): in "high" runs the sequential id counter is advanced to within
+    /// a few ids of u32::MAX before the judged history starts - a state the public API reaches only after some
+    /// 134 000 maximal batches - so that minting runs into the end of the id space.
+    base: u32,
 }
 
 fn sym(e: &Env, f: &str) -> Symbol {
@@ -109,7 +113,16 @@ fn sym(e: &Env, f: &str) -> Symbol {
 }
 
 impl Sys {
-    fn new(fl: &str, imp: &str, min_temp: u32) -> Sys {
+    /// None: the id lies beyond u32::MAX - no such token can exist (and an id wrapped around would make the
+    /// consecutive owner_of scan the whole artificially skipped id space)
+    fn real(&self, m: u32) -> Option<u32> {
+        self.base.checked_add(m)
+    }
+    fn model(&self, r: u32) -> u32 {
+        r.wrapping_sub(self.base)
+    }
+
+    fn new(fl: &str, imp: &str, min_temp: u32, base: u32) -> Sys {
         let e = new_env(&LedgerCfg { seq: NOW0, min_temp, min_persistent: 1_000_000, max_ttl: MAX_TTL });
         let names = Names::new(&e, &ACCTS);
         let admin = <Address as soroban_sdk::testutils::Address>::generate(&e);
@@ -125,7 +138,7 @@ impl Sys {
             }
             _ => panic!("flavour {fl}/{imp}"),
         };
-        Sys {
+        let sys = Sys {
             e,
             names,
             admin,
@@ -136,7 +149,16 @@ impl Sys {
             touched: BTreeSet::new(),
             batches: vec![],
             next: 0,
+            base,
+        };
+        if base > 0 {
+            // set-up, not judged: the library's own counter primitive, in the contract's frame
+            let (e2, c2) = (sys.e.clone(), sys.c.clone());
+            e2.as_contract(&c2, || {
+                stellar_tokens::non_fungible::sequential::increment_token_id(&e2, base);
+            });
         }
+        sys
     }
 
     // ---- getters (public entry points only) -------------------------------------------------
@@ -147,13 +169,17 @@ impl Sys {
         }
     }
     fn owner_of(&self, id: u32) -> String {
-        self.names.opt_name(&self.get::<Address>("owner_of", args(&self.e, (id,))))
+        match self.real(id) {
+            Some(rid) => self.names.opt_name(&self.get::<Address>("owner_of", args(&self.e, (rid,)))),
+            None => "none".into(),
+        }
     }
     fn balance(&self, a: &str) -> i64 {
         self.get::<u32>("balance", args(&self.e, (self.names.get(a),))).map(|x| x as i64).unwrap_or(-1)
     }
     fn approved(&self, id: u32) -> String {
-        match self.get::<Option<Address>>("get_approved", args(&self.e, (id,))) {
+        let Some(rid) = self.real(id) else { return "none".into() };
+        match self.get::<Option<Address>>("get_approved", args(&self.e, (rid,))) {
             Some(x) => self.names.opt_name(&x),
             None => "?".into(),
         }
@@ -223,7 +249,7 @@ impl Sys {
             let mut oob = "fail";
             if enumerable {
                 for k in 0..(b.max(0) as u32).min(LIST_CAP) {
-                    lst.push(self.get::<u32>("get_owner_token_id", args(&self.e, (addr.clone(), k))).map(|x| x as i64).unwrap_or(-1));
+                    lst.push(self.get::<u32>("get_owner_token_id", args(&self.e, (addr.clone(), k))).map(|x| self.model(x) as i64).unwrap_or(-1));
                 }
                 if self.get::<u32>("get_owner_token_id", args(&self.e, (addr.clone(), b.max(0) as u32))).is_some() {
                     oob = "ok";
@@ -236,7 +262,7 @@ impl Sys {
         if enumerable {
             supply = self.get::<u32>("total_supply", args(&self.e, ())).map(|x| x as i64).unwrap_or(-2);
             for k in 0..(supply.max(0) as u32).min(LIST_CAP) {
-                glob.push(self.get::<u32>("get_token_id", args(&self.e, (k,))).map(|x| x as i64).unwrap_or(-1));
+                glob.push(self.get::<u32>("get_token_id", args(&self.e, (k,))).map(|x| self.model(x) as i64).unwrap_or(-1));
             }
             if self.get::<u32>("get_token_id", args(&self.e, (supply.max(0) as u32,))).is_some() {
                 glob_oob = "ok";
@@ -270,6 +296,10 @@ impl Sys {
         let kind = s(op, "op");
         let id = n(op, "id") as u32;
         let until = n(op, "until") as u32;
+        let Some(rid) = self.real(id) else {
+            // an id beyond u32::MAX cannot be passed to the contract at all
+            return json!({"op": op, "now": now, "res": "fail", "err": -8, "ret": -1, "obs": self.obs()});
+        };
         let acct = |k: &str| self.names.get(s(op, k));
         let mut ret: i64 = -1;
         let (res, code) = match kind {
@@ -280,7 +310,7 @@ impl Sys {
                 let (f, a): (&str, SVec<Val>) = match (kind, self.fl.as_str(), self.imp.as_str()) {
                     ("mint_seq", _, "thin") => ("mint_seq", args(&e, (to,))),
                     ("mint_seq", "enumerable", "example") => ("mint", args(&e, (to,))),
-                    ("mint_id", _, "thin") => ("mint_id", args(&e, (to, id))),
+                    ("mint_id", _, "thin") => ("mint_id", args(&e, (to, rid))),
                     ("batch", "consecutive", _) => ("batch_mint", args(&e, (to, n(op, "n") as u32))),
                     _ => ("", args(&e, ())),
                 };
@@ -295,7 +325,7 @@ impl Sys {
                                 self.touched.insert(id);
                             }
                             _ => {
-                                let r = v.and_then(|v| u32::try_from_val(&e, &v).ok()).expect("mint returns an id");
+                                let r = self.model(v.and_then(|v| u32::try_from_val(&e, &v).ok()).expect("mint returns an id"));
                                 ret = r as i64;
                                 self.next = self.next.max(r + 1);
                                 if kind == "batch" {
@@ -312,31 +342,31 @@ impl Sys {
             }
             "transfer" => {
                 self.touched.insert(id);
-                let a = args(&e, (acct("from"), acct("to"), id));
+                let a = args(&e, (acct("from"), acct("to"), rid));
                 let (r, c, _) = self.invoke("transfer", a.clone(), &self.same(&who, "transfer", &a));
                 (r, c)
             }
             "transfer_from" => {
                 self.touched.insert(id);
-                let a = args(&e, (acct("sp"), acct("from"), acct("to"), id));
+                let a = args(&e, (acct("sp"), acct("from"), acct("to"), rid));
                 let (r, c, _) = self.invoke("transfer_from", a.clone(), &self.same(&who, "transfer_from", &a));
                 (r, c)
             }
             "burn" => {
                 self.touched.insert(id);
-                let a = args(&e, (acct("from"), id));
+                let a = args(&e, (acct("from"), rid));
                 let (r, c, _) = self.invoke("burn", a.clone(), &self.same(&who, "burn", &a));
                 (r, c)
             }
             "burn_from" => {
                 self.touched.insert(id);
-                let a = args(&e, (acct("sp"), acct("from"), id));
+                let a = args(&e, (acct("sp"), acct("from"), rid));
                 let (r, c, _) = self.invoke("burn_from", a.clone(), &self.same(&who, "burn_from", &a));
                 (r, c)
             }
             "approve" => {
                 self.touched.insert(id);
-                let a = args(&e, (acct("from"), acct("to"), id, until));
+                let a = args(&e, (acct("from"), acct("to"), rid, until));
                 let (r, c, _) = self.invoke("approve", a.clone(), &self.same(&who, "approve", &a));
                 (r, c)
             }
@@ -351,7 +381,7 @@ impl Sys {
     }
 
     fn reset_event(&self) -> Value {
-        json!({"op": {"op": "reset", "flavour": self.fl, "imp": self.imp, "min_temp": self.min_temp},
+        json!({"op": {"op": "reset", "flavour": self.fl, "imp": self.imp, "min_temp": self.min_temp, "base": self.base.to_string()},
                "now": NOW0, "res": "ok", "err": 0, "ret": -1, "obs": self.obs()})
     }
 }
@@ -389,7 +419,11 @@ fn remap(ops: &[Value]) -> Vec<Value> {
 }
 
 fn run_ops(t: &mut Trace, fl: &str, imp: &str, min_temp: u32, ops: &[Value]) {
-    let mut sys = Sys::new(fl, imp, min_temp);
+    run_ops_at(t, fl, imp, min_temp, 0, ops)
+}
+
+fn run_ops_at(t: &mut Trace, fl: &str, imp: &str, min_temp: u32, base: u32, ops: &[Value]) {
+    let mut sys = Sys::new(fl, imp, min_temp, base);
     t.reset(sys.reset_event());
     for op in ops {
         let ev = sys.step(op);
@@ -534,7 +568,8 @@ fn main() {
                     Some(fl) => {
                         let imp = b.cfg.get("imp").and_then(|v| v.as_str()).unwrap_or("thin");
                         let mt = b.cfg.get("min_temp").and_then(|v| v.as_u64()).unwrap_or(16) as u32;
-                        run_ops(&mut t, fl, imp, mt, &b.ops);
+                        let base: u32 = b.cfg.get("base").and_then(|v| v.as_str()).and_then(|x| x.parse().ok()).unwrap_or(0);
+                        run_ops_at(&mut t, fl, imp, mt, base, &b.ops);
                     }
                     // a behaviour printed by TLC: the flavour is carried by every op record
                     None => match s(&b.ops[0], "fl") {
@@ -566,7 +601,9 @@ fn main() {
                     _ => ("consecutive", "example"),
                 };
                 let min_temp = if r.gen_bool(0.5) { 1 } else { 16 };
-                let mut sys = Sys::new(fl, imp, min_temp);
+                // "high" runs of the examples: the id counter starts a few ids (or a batch or two) below u32::MAX
+                let base = if imp == "example" && (run / 5) % 3 == 2 { u32::MAX - *pick(&mut r, &[15u32, 100, 5000, 40_000]) } else { 0 };
+                let mut sys = Sys::new(fl, imp, min_temp, base);
                 t.reset(sys.reset_event());
                 let mut xid: u32 = 1_000_000 + r.gen_range(0..1000);
                 for _ in 0..len {
